@@ -196,10 +196,6 @@ def adversarial_defs():
         S.Struct('AdvIn', [M('m', 'u8'), M('c', 'u8', S.EXT, sizer='m')]),
         S.Struct('AdvOut', [M('n', 'u8'), M('a', 'u8', S.EXT, sizer='n'), M('inner', 'AdvIn'),
                             M('c', 'u8', S.EXT, sizer='n')]),
-        # arrays of three different kinds (scalars, bytes, structs) sharing one sizer
-        S.Struct('AdvMixEl', [M('a', 'u8'), M('b', 'u16')]),
-        S.Struct('AdvMix', [M('n', 'u8'), M('ids', 'u16', S.EXT, sizer='n'), M('raw', 'byte', S.EXT, sizer='n'),
-                            M('items', 'AdvMixEl', S.EXT, sizer='n')]),
         # sizer declared after the first dynamic field, another dynamic field between sizer and array
         S.Struct('AdvParts', [M('a', 'u8', S.DYNAMIC), M('n', 'u32'), M('m', 'u16'), M('b', 'u8', S.EXT, sizer='n'),
                               M('c', 'u16', S.EXT, sizer='m')]),
